@@ -60,19 +60,6 @@ Definition input_labels_ok (src dst : list N) : bool :=
   (forallb (fun l => (N.ltb 0 l && N.ltb l FB)%bool) (src ++ dst)
    && disjointN src dst && nodupN dst)%bool.
 
-(* the destinations the property speaks about: a non-nil pointer (from a non-nil source), a
-   slice of equal length, an empty map; the reference itself is passed by value, so its
-   nil-ness is the caller's and has to agree with the source's *)
-Definition top_guard (t : ty) (src dst : val) : bool :=
-  match src, dst with
-  | VPtr _ _, VPtr _ _ => true
-  | VNilS, VNilS => true
-  | VSl _ a _, VSl _ b _ => Nat.eqb (List.length a) (List.length b)
-  | VNilM, VNilM => true
-  | VMap _ _, VMap _ [] => true
-  | _, _ => false
-  end.
-
 Fixpoint val_sexp (v : val) : sexp :=
   match v with
   | VBool b => L [Sym "b"; of_bool b]
@@ -188,7 +175,7 @@ Definition eval05 (e : sexp) : verdict :=
             let t := if String.eqb k "dcp" then TP t0 else t0 in
             let typed := (has_type [] t src && has_type [] t dst)%bool in
             let m := deepcopy_top [] t dst src FB in
-            let inguard := (typed && input_labels_ok (labels src) (labels dst) && top_guard t src dst)%bool in
+            let inguard := (typed && input_labels_ok (labels src) (labels dst) && top_guard src dst)%bool in
             {| v_known := typed;
                v_model_ok := match m, rl with
                              | Ok (mv, _), RRet rv _ _ _ => (match_val rv mv && fresh_distinct rv)%bool
